@@ -121,17 +121,30 @@ type result struct {
 	Edge  map[string][]int `json:"edge"`  // per table: what reading tail-1 and head gives (-1 = error, as it must be)
 }
 
+// failed is the projection of a freezer that did not open.
+func failed(cfg config, msg string) result {
+	res := result{Err: msg, Tails: map[string]int{}, Items: map[string][]int{}, Edge: map[string][]int{}}
+	for _, g := range cfg.groups() {
+		res.Tails[g] = 0
+	}
+	for _, t := range cfg.Tables {
+		res.Items[t.Name] = []int{}
+		res.Edge[t.Name] = []int{-1, -1}
+	}
+	return res
+}
+
 func project(f *rawdb.Freezer, cfg config) result {
 	res := result{OK: true, Tails: map[string]int{}, Items: map[string][]int{}, Edge: map[string][]int{}}
 	h, err := f.Ancients()
 	if err != nil {
-		return result{Err: "Ancients: " + err.Error()}
+		return failed(cfg, "Ancients: "+err.Error())
 	}
 	res.Head = int(h)
 	for _, g := range cfg.groups() {
 		t, err := f.Tail(g)
 		if err != nil {
-			return result{Err: "Tail: " + err.Error()}
+			return failed(cfg, "Tail: "+err.Error())
 		}
 		res.Tails[g] = int(t)
 	}
@@ -202,7 +215,7 @@ func runChild(in, out string) {
 		var res result
 		fr, err := rawdb.VerifNewFreezer(j.Dir, false, j.Cfg.MaxFile, j.Cfg.verifTables())
 		if err != nil {
-			res = result{Err: "open: " + err.Error()}
+			res = failed(j.Cfg, "open: "+err.Error())
 		} else {
 			res = project(fr, j.Cfg)
 			fr.Close()
@@ -273,7 +286,7 @@ func reopenImages(self string, cfg config, dirs []string, scratch string) []resu
 		if len(tail) > 400 {
 			tail = tail[len(tail)-400:]
 		}
-		out[next+started] = result{Err: "process terminated while opening: " + tail}
+		out[next+started] = failed(cfg, "process terminated while opening: "+tail)
 		done[next+started] = true
 		next = next + started + 1
 	}
@@ -492,6 +505,7 @@ type runner struct {
 	recording bool
 	shapes    map[string]bool
 	imgSeen   map[string]bool
+	script    string
 	nextID    int
 	imgSeq    int
 	points    int
@@ -749,20 +763,18 @@ func (rn *runner) history(h int, steps int) {
 	rn.recording = true
 	shape := ""
 	crashes := 0
-	for s := 0; s < steps; s++ {
-		c := rn.r.Intn(100)
-		switch {
-		case c < 45: // append 1..4 items
-			k := 1 + rn.r.Intn(4)
+	do := func(kind byte, arg int) {
+		switch kind {
+		case 'a':
 			var ids []int
-			for i := 0; i < k; i++ {
+			for i := 0; i < arg; i++ {
 				ids = append(ids, rn.nextID)
 				rn.nextID++
 			}
 			rn.tr.Emit(tl.M{"op": "call", "name": "append", "ids": ids, "sizes": rn.sizes(ids), "n": 0})
 			start := rn.head
 			_, err := rn.fr.ModifyAncients(func(op ethdb.AncientWriteOp) error {
-				// table by table, as the property's histories are single-writer sequences
+				// table by table (a single writer decides the order of its AppendRaw calls)
 				for ti, t := range rn.cfg.Tables {
 					for i, id := range ids {
 						if err := op.AppendRaw(t.Name, uint64(start+i), payload(id, ti)); err != nil {
@@ -773,17 +785,53 @@ func (rn *runner) history(h int, steps int) {
 				return nil
 			})
 			if err == nil {
-				rn.head += k
+				rn.head += arg
 			}
 			rn.ret("append", err)
-			shape += "a"
-		case c < 60:
+		case 's':
 			rn.tr.Emit(tl.M{"op": "call", "name": "sync", "ids": []int{}, "sizes": rn.sizes(nil), "n": 0})
 			err := rn.fr.SyncAncient()
 			rn.synced = rn.head
 			rn.ret("sync", err)
-			shape += "s"
-		case c < 75: // truncate head
+		case 'h':
+			rn.tr.Emit(tl.M{"op": "call", "name": "thead", "ids": []int{}, "sizes": rn.sizes(nil), "n": arg})
+			_, err := rn.fr.TruncateHead(uint64(arg))
+			rn.head = min(rn.head, arg)
+			rn.synced = min(rn.synced, arg)
+			rn.ret("thead", err)
+		case 't':
+			grp := rn.cfg.groups()[0]
+			rn.tr.Emit(tl.M{"op": "call", "name": "ttail", "ids": []int{}, "sizes": rn.sizes(nil), "n": arg, "group": grp})
+			_, err := rn.fr.TruncateTail(grp, uint64(arg))
+			rn.tail[grp] = max(rn.tail[grp], arg)
+			rn.ret("ttail", err)
+		case 'c':
+			crashes++
+			rn.mainCrash(h, crashes)
+		}
+		shape += string(kind)
+	}
+	if rn.script != "" {
+		for _, tok := range strings.Split(rn.script, ",") {
+			arg := 0
+			if len(tok) > 1 {
+				arg, _ = strconv.Atoi(tok[1:])
+			}
+			do(tok[0], arg)
+			if !rn.recording {
+				break // a main-line crash image did not open
+			}
+		}
+		steps = 0
+	}
+	for s := 0; s < steps && rn.recording; s++ {
+		c := rn.r.Intn(100)
+		switch {
+		case c < 45:
+			do('a', 1+rn.r.Intn(4))
+		case c < 60:
+			do('s', 0)
+		case c < 75: // truncate head (not below the tail)
 			lo := 0
 			for _, v := range rn.tail {
 				lo = max(lo, v)
@@ -791,39 +839,25 @@ func (rn *runner) history(h int, steps int) {
 			if rn.head <= lo {
 				continue
 			}
-			n := lo + rn.r.Intn(rn.head-lo)
-			rn.tr.Emit(tl.M{"op": "call", "name": "thead", "ids": []int{}, "sizes": rn.sizes(nil), "n": n})
-			_, err := rn.fr.TruncateHead(uint64(n))
-			rn.head = n
-			rn.synced = min(rn.synced, n)
-			rn.ret("thead", err)
-			shape += "h"
+			do('h', lo+rn.r.Intn(rn.head-lo))
 		case c < 90: // truncate tail (only below the synced head unless -unsynced-tail)
 			g := rn.cfg.groups()
 			if len(g) == 0 {
 				continue
 			}
-			grp := g[rn.r.Intn(len(g))]
 			hi := rn.synced
 			if unsyncedTail {
 				hi = rn.head
 			}
-			if hi <= rn.tail[grp] {
+			if hi <= rn.tail[g[0]] {
 				continue
 			}
-			n := rn.tail[grp] + 1 + rn.r.Intn(hi-rn.tail[grp])
-			rn.tr.Emit(tl.M{"op": "call", "name": "ttail", "ids": []int{}, "sizes": rn.sizes(nil), "n": n, "group": grp})
-			_, err := rn.fr.TruncateTail(grp, uint64(n))
-			rn.tail[grp] = n
-			rn.ret("ttail", err)
-			shape += "t"
+			do('t', rn.tail[g[0]]+1+rn.r.Intn(hi-rn.tail[g[0]]))
 		default: // main-line crash: continue on one of the images
 			if crashes >= 2 {
 				continue
 			}
-			crashes++
-			rn.mainCrash(h, crashes)
-			shape += "c"
+			do('c', 0)
 		}
 	}
 	rn.recording = false
@@ -935,6 +969,7 @@ func main() {
 	perPt := flag.Int("images", 6, "crash images per crash point")
 	every := flag.Bool("every-length", false, "propose every byte length between durable and current")
 	flag.BoolVar(&unsyncedTail, "unsynced-tail", false, "also truncate the tail above the synced head")
+	script := flag.String("script", "", "run this history instead of random ones, e.g. a2,s,t1,h1,c,a1 (append/sync/tail/head/crash)")
 	out := flag.String("out", "summary.json", "summary output")
 	flag.Parse()
 	if *mode == "child" {
@@ -959,7 +994,7 @@ func main() {
 	if err != nil {
 		tl.Fatal("executable: %v", err)
 	}
-	rn := &runner{cfg: cfg, cfgName: *cfgName, self: self, scratch: *dir, r: tl.Rand(seed), sum: sum, thor: *every, perPt: *perPt, nextID: 1, shapes: map[string]bool{}}
+	rn := &runner{cfg: cfg, cfgName: *cfgName, self: self, scratch: *dir, r: tl.Rand(seed), sum: sum, thor: *every, perPt: *perPt, nextID: 1, shapes: map[string]bool{}, script: *script}
 	rn.tr = tl.NewTrace(*trace)
 	rawdb.VerifHook = rn.hook
 	for h := 0; h < *n; h++ {
